@@ -302,6 +302,47 @@ def nullOracle : Oracle :=
   { autoChannels := 1, autoMode := MODE_CELT_ONLY, allowBwSwitch := false, autoBandwidth := BW_FB,
     detected := 0, fecBandwidth := 0, silkBandwidth := 0, completion := 1 }
 
+/-- Every value the DSP-dependent inputs of one encode call can take, as far as the state left
+    behind is concerned (`detected` only lowers the bandwidth, which `fecBandwidth` can do alone;
+    `silkBandwidth` only enters the TOC). -/
+def oracleGrid : List Oracle :=
+  [1, 2].flatMap fun ac => [MODE_SILK_ONLY, MODE_CELT_ONLY].flatMap fun am => [false, true].flatMap fun ab =>
+  [BW_NB, BW_MB, BW_WB, BW_SWB, BW_FB].flatMap fun abw => [0, BW_NB, BW_MB, BW_WB, BW_SWB, BW_FB].flatMap fun fec =>
+  [0, 1, 2].map fun comp =>
+    { autoChannels := ac, autoMode := am, allowBwSwitch := ab, autoBandwidth := abw, detected := 0,
+      fecBandwidth := fec, silkBandwidth := 0, completion := comp }
+
+/-- Some value of the DSP-dependent inputs makes `EncDecide.step` leave exactly the observed
+    decision state (mode, bandwidth, channels, toMono, prev_*, first, force_channels). -/
+def stepMatches (s : EncSt) (fsel outDataBytes : Int) (o : EncObs) : Bool :=
+  oracleGrid.any fun orc =>
+    let d := (step s.toDSt orc fsel outDataBytes).1
+    d.streamChannels == o.streamChannels && d.mode == o.mode && d.bandwidth == o.bandwidth && d.toMono == o.toMono &&
+    d.prevMode == o.prevMode && d.prevChannels == o.prevChannels && d.prevFramesize == o.prevFramesize &&
+    d.first == o.first && d.forceChannels == o.forceChannels
+
+/-- Range part of the encode contract: whatever path an `opus_encode` call takes after the entry
+    checks, the fields a later ctl can see stay inside these ranges (they are the ranges the
+    invariant `CtlInv`/`DInv` of OpusProofs needs).  `none` = all hold. -/
+def obsRange (s : EncSt) (o : EncObs) : Option String :=
+  -- :1674-1676 is the only place an encode call writes a *setting*: force_channels = 1 (stereo encoder)
+  if o.forceChannels ≠ s.forceChannels ∧ ¬(o.forceChannels = 1 ∧ s.channels = 2) then some "force_channels"
+  else if o.voiceRatio < -1 ∨ o.voiceRatio > 100 then some "voice_ratio"
+  else if o.bandwidth < BW_NB ∨ o.bandwidth > BW_FB then some "bandwidth"
+  else if o.mode < MODE_SILK_ONLY ∨ o.mode > MODE_CELT_ONLY then some "mode"
+  else if o.prevMode ≠ 0 ∧ (o.prevMode < MODE_SILK_ONLY ∨ o.prevMode > MODE_CELT_ONLY) then some "prev_mode"
+  else if o.streamChannels < 1 ∨ o.streamChannels > s.channels then some "stream_channels"
+  else if o.prevChannels < 0 ∨ o.prevChannels > s.channels then some "prev_channels"
+  else if o.toMono ≠ 0 ∧ o.toMono ≠ 1 then some "toMono"
+  else if o.first ∧ !s.first then some "first"
+  else if o.first ∧ o.prevMode ≠ 0 then some "first-prev_mode"
+  else if s.application = APP_RESTRICTED_LOWDELAY ∧ o.prevMode ≠ 0 ∧ o.prevMode ≠ MODE_CELT_ONLY then some "lowdelay-prev_mode"
+  else if o.maxInternalSampleRate ≠ 8000 ∧ o.maxInternalSampleRate ≠ 12000 ∧ o.maxInternalSampleRate ≠ 16000
+    then some "maxInternalSampleRate"
+  else if o.useCBR ≠ 0 ∧ o.useCBR ≠ 1 then some "useCBR"
+  else if o.celtEnergyMask ∧ !s.celtEnergyMask then some "celt_energy_mask"
+  else none
+
 /-- Monitored contract of an `opus_encode(st, pcm, frame_size, data, out_data_bytes)` call that
     returned `ret`, given the fields observed afterwards.  `none` = consistent with the model. -/
 def encodeContract (s : EncSt) (frameSize outDataBytes ret : Int) (o : EncObs) : Option String :=
@@ -314,27 +355,25 @@ def encodeContract (s : EncSt) (frameSize outDataBytes ret : Int) (o : EncObs) :
     if ret ≠ e.code then some "ret"
     else if o ≠ { encObserve s with rangeFinal := 0 } then some "state-changed" else none
   | none =>
+    match obsRange s o with
+    | some why => some why
+    | none =>
     if ret < 0 then none                       -- BUFFER_TOO_SMALL / INTERNAL_ERROR: DSP dependent
     else if lowBudget s.toDSt fsel outDataBytes then
       -- :1267-1333 returns before any update except bitrate_bps / voice_ratio / rangeFinal
       if o ≠ { encObserve s with rangeFinal := 0, voiceRatio := o.voiceRatio } then some "lowbudget-state"
-      else if o.voiceRatio < -1 ∨ o.voiceRatio > 100 then some "voice_ratio"
       else none
     else
-      if o.celtEnergyMask ∧ !s.celtEnergyMask then some "celt_energy_mask"
-      else if o.forceChannels ≠ s.forceChannels ∧ o.forceChannels ≠ 1 then some "force_channels"
-      else if o.first ∧ !s.first then some "first"
-      else if o.voiceRatio < -1 ∨ o.voiceRatio > 100 then some "voice_ratio"
-      else if o.bandwidth < BW_NB ∨ o.bandwidth > BW_FB then some "bandwidth"
-      else if o.mode < MODE_SILK_ONLY ∨ o.mode > MODE_CELT_ONLY then some "mode"
-      else if o.streamChannels < 1 ∨ o.streamChannels > s.channels then some "stream_channels"
-      else if encForced s then
+      if encForced s then
         let d := chain s.toDSt nullOracle fsel (budget s.toDSt fsel outDataBytes).maxDataBytes
         if o.mode ≠ d.mode then some s!"chain-mode {d.mode}"
         else if o.bandwidth ≠ d.bandwidth then some s!"chain-bandwidth {d.bandwidth}"
         else if o.streamChannels ≠ d.streamChannels then some s!"chain-channels {d.streamChannels}"
         else if o.toMono ≠ d.toMono then some s!"chain-toMono {d.toMono}"
+        else if !stepMatches s fsel outDataBytes o then some "no-oracle"
         else none
+      -- in general: the state left behind is what `step` computes for SOME value of the DSP inputs
+      else if !stepMatches s fsel outDataBytes o then some "no-oracle"
       else none
 
 /-! ## Decoder -/
@@ -511,6 +550,9 @@ def msEncCtl (s : MsEncSt) : MsEncReq → MsEncSt × Ret
     if validFrameDuration v then ({ s with variableDuration := v }, .ok) else (s, .err .badArg)
   | .set k v =>
     if msEncFwdSet k then
+      -- :1223-1227 (fix a0f32f9c): every mono stream refuses forced stereo; refuse before any
+      -- coupled stream has been changed
+      if k = .forceChannels ∧ v = 2 ∧ s.nbCoupled < s.nbStreams then (s, .err .badArg) else
       let (ss, r) := fanOut (fun e => encCtl e (.set k v)) s.streams
       ({ s with streams := ss }, r)
     else (s, .err .unimplemented)
